@@ -8,8 +8,8 @@ CONSTANTS
  Flag = TRUE
  Tps = 2
  Off = 1
- MaxTick = 8
- MaxSubs = 4
+ MaxTick = 9
+ MaxSubs = 5
  MaxErr = 2
 INVARIANTS Safety
 VIEW View
